@@ -281,7 +281,7 @@ def gen_main(ctx, variant=0):
     rng = ctx.rng
     quick = ctx.tier == "quick"
     cc, setid, gens = 2, 1, [1, 2]
-    case = {"init_cc": cc, "init_set": setid, "init_gens": list(gens), "dns": False, "rounds": []}
+    case = {"init_cc": cc, "init_set": setid, "init_gens": list(gens), "dns": True, "rounds": []}
     fam = [(True, True), (True, True), (True, False), (False, True)]
 
     def probes(n):
@@ -289,6 +289,9 @@ def gen_main(ctx, variant=0):
         for _ in range(n):
             v4, v6 = rng.choice(fam)
             ps.append({"gen": rng.choice([0] + gens), "v4": v4, "v6": v6})
+        # through the DNS registrar (a DNS client is not moved to the registrar's generation: its own must be in the file)
+        ps.append({"gen": cc, "v4": True, "v6": True, "dns": True})
+        ps.append({"gen": rng.choice(gens), "v4": rng.random() < 0.7, "v6": True, "dns": True})
         return ps
 
     plan = ["new-gen/both", "subnets-only/sub", "cc-bad/cc", "sub-bad/sub", "new-gen/sub", "jump/both", "new-gen/cc", "new-gen/none"]
@@ -346,6 +349,8 @@ def oracle_main(ctx, case, res):
         ctx.broken("driver", "the registration server's main() did not come up in the test process: %s" % res.get("err"))
         return
     slim = lambda rd: {k: v for k, v in rd.items()}
+    if res.get("aborted"):
+        ctx.cov["main_aborted"] = res["aborted"]
     for n, (rd, ro, (before, after)) in enumerate(zip(case["rounds"], res["rounds"], main_states(case))):
         what = rd["what"]
         ctx.count(("main", n, repr(rd)), nontrivial=True, kind="main/" + ("stress" if rd["stress"] else "held" if (rd["hold_cc"] or rd["hold_sub"]) else "plain"))
@@ -355,14 +360,16 @@ def oracle_main(ctx, case, res):
         ctxcase = {"kind": "main", "round": n, "round_spec": slim(rd), "state_before": before, "state_after": after,
                    "init": {k: case[k] for k in ("init_cc", "init_set", "init_gens")}, "rounds_before": [r["what"] for r in case["rounds"][:n]]}
         for where, o in where_obs:
-            desc = "client generation %d (%s) %s of reload %d (%s: ClientConf generation %s, subnet set %d with generations %s; before: set %d, generations %s, ClientConf %d)" % (
+            desc = ("DNS registrar, " if o.get("dns") else "") + "client generation %d (%s) %s of reload %d (%s: ClientConf generation %s, subnet set %d with generations %s; before: set %d, generations %s, ClientConf %d)" % (
                 o["gen"], "dual stack" if o["v4"] and o["v6"] else "v4" if o["v4"] else "v6",
                 {"at-cc": "while the handler was reading the ClientConf file", "at-sub": "while ReloadSubnets was reading the subnets file",
                  "after": "after", "stress": "sent free-running during"}[where], n, what, "unparsable" if rd["cc_bad"] else rd["cc"], rd["set"], rd["gens"],
                 before[0], before[1], before[2])
             if o["status"] != 200:
-                ctx.fail("unanswered/main/%s" % where, "a bidirectional API registration was not answered (HTTP %s%s): %s"
-                         % (o["status"] or "none", " " + o["err"] if o["err"] else "", desc), {**ctxcase, "observed": o, "where": where})
+                ctx.fail("unanswered/main/%s%s" % (where, "/dns" if o.get("dns") else ""),
+                         "a bidirectional %s registration was not answered (%s%s): %s"
+                         % ("DNS" if o.get("dns") else "API", ("success=false" if o["status"] else "no response") if o.get("dns") else "HTTP %s" % (o["status"] or "none"),
+                            " " + o["err"] if o["err"] else "", desc), {**ctxcase, "observed": o, "where": where})
                 continue
             if o["v4"] and o["v6"] and o["v4set"] != o["v6set"]:
                 ctx.fail("mixed/main/%s" % where, "IPv4 phantom from subnet set %d, IPv6 phantom from set %d: %s" % (o["v4set"], o["v6set"], desc),
@@ -387,8 +394,8 @@ def oracle_main(ctx, case, res):
 
 def gmobs(o):
     on = lambda cond, v: gopt(v if cond and v is not None and v >= 0 else None, str)
-    return "(%d, %s, %s, %s, %s, (%s, %s), (%s, %s), %s)" % (
-        o["gen"], gbool(o["v4"]), gbool(o["v6"]), gbool(o["late"]), gbool(o["status"] == 200),
+    return "(%d, %s, %s, %s, %s, %s, (%s, %s), (%s, %s), %s)" % (
+        o["gen"], gbool(bool(o.get("dns"))), gbool(o["v4"]), gbool(o["v6"]), gbool(o["late"]), gbool(o["status"] == 200),
         on(True, o["v4set"]), on(True, o["v6set"]), on(True, o["v4gen"]), on(True, o["v6gen"]), on(True, o["cc"]))
 
 
@@ -480,7 +487,7 @@ def gen_cases(ctx):
     cases += gen_real(ctx)
     for same, k, m, it in ([(True, 4, 2, 1500), (False, 3, 2, 800)] if quick else [(True, 4, 2, 6000), (False, 4, 3, 4000), (True, 8, 3, 3000), (True, 2, 1, 6000)]):
         cases.append({"kind": "realstress", "samepath": same, "reqs": [dict(rng.choice([DUAL, DUAL, DUAL, V4, V6])) for _ in range(k)], "reloads": m,
-                      "iters": it, "bound_ms": 30000})
+                      "iters": it, "bound_ms": 10000 if quick else 30000})
     return cases
 
 
@@ -579,9 +586,19 @@ def run_main_lane(ctx, variant):
     """the real main() of cmd/registration-server with SIGHUP reloads held at the files it reads (one process per case)"""
     case = gen_main(ctx, variant)
     rc, out, res = ctx.go_inpkg(MAINMOD, ".", {"zz_verif_driver_test.go": "c13/c13_main_driver_test.go"}, "^TestVerifC13Main$", [case], timeout=300)
-    if not res or not isinstance(res, list) or len(res[0].get("rounds") or []) != len(case["rounds"]):
+    if not res or not isinstance(res, list) or not res[0].get("started"):
         ctx.broken("driver", "the registration-server driver (real main() in the test process) did not produce results: %s" % out[-1500:])
         return None, None
+    n = len(res[0].get("rounds") or [])
+    if n != len(case["rounds"]) and not res[0].get("aborted"):
+        # the server runs inside the test process: the process died in round n
+        rd = case["rounds"][n]
+        i = out.find("panic:")
+        ctx.fail("crashed/main", "the registration server process died while handling reload %d (%s: ClientConf %s, subnets file %s, after rounds %s):\n%s"
+                 % (n, rd["what"], "unparsable" if rd["cc_bad"] else rd["cc"], "unparsable" if rd["sub_bad"] else "set %d" % rd["set"],
+                    [r["what"] for r in case["rounds"][:n]], out[max(0, i):][:2500]),
+                 {"kind": "main", "round": n, "round_spec": rd, "rounds_before": [r["what"] for r in case["rounds"][:n]],
+                  "init": {k: case[k] for k in ("init_cc", "init_set", "init_gens")}})
     return case, res[0]
 
 
